@@ -275,8 +275,16 @@ class HistGen:
             d2 = self.new_event(kind=5, pk=pk, t=3500, tags=[[b'e', e2['id'].hex().encode()]], content=b'')
             e3 = self.new_event(kind=kind, pk=pk, t=1999, tags=tg, content=b'e3')
             mid = {'op': rng.choice(['rebuild', 'rebuild', 'reopen'])}
-            self.episode = [{'op': 'store', 'ev': dl}, {'op': 'store', 'ev': e2}, mid, {'op': 'store', 'ev': d2},
+            # ... and, after the address was deleted, an OLDER deletion of a different address arrives (by the same or another key):
+            # deletion times are per address; a later, older request for another address must not reopen this one
+            opk = rng.choice([pk] + [a_ for a_ in AUTHORS if a_ != pk])
+            dother = self.new_event(kind=5, pk=opk, t=rng.choice([500, 1500]), content=b'',
+                                    tags=[[b'a', b'30023:' + opk.hex().encode() + b':elsewhere']])
+            self.episode = [{'op': 'store', 'ev': dl}, {'op': 'store', 'ev': dother}, {'op': 'store', 'ev': e2}, mid, {'op': 'store', 'ev': d2},
                             {'op': 'store', 'ev': e1}, {'op': 'store', 'ev': e3}]
+            if rng.random() < 0.5:
+                # the covered events offered again straight after the two requests, before anything reopens or rebuilds the store
+                self.episode = self.episode[:2] + [{'op': 'store', 'ev': e1}, {'op': 'store', 'ev': e3}] + self.episode[2:]
             return {'op': 'store', 'ev': e1}
         if f == 'C16' and rng.random() < 0.06:
             # a rebuild of a store holding several chunks of live events, after which the SAME store keeps being used until the
